@@ -697,6 +697,13 @@ func gen(t *rapid.T) Case {
 			c.H, c.Want, c.Edit = h, false, lab
 		}
 	}
+	if rapid.IntRange(0, 29).Draw(t, "deep") == 17 {
+		// both operands inside the same 15 to 66 nested collections: the answer is the one for the operands themselves
+		depth := rapid.SampledFrom([]int{16, 16, 32, 64}).Draw(t, "deepn") + rapid.IntRange(-1, 2).Draw(t, "deepoff")
+		pat := rapid.Uint64().Draw(t, "deeppat")
+		c.G, c.H = vkit.WrapDeep(c.G, depth, pat), vkit.WrapDeep(c.H, depth, pat)
+		c.Edit += "+nested_deep"
+	}
 	return c
 }
 
